@@ -9,6 +9,8 @@ from checks.c03_dataset_wrappers import ClassRoot
 from checks.c12_rank_samplers import PlainDS, _class_layout
 from vlib.core import Case, Facet, Refused, Violation
 
+# thorough-tier budgets of every facet are multiplied by this factor (sized for ~5-8 min on 16 cores)
+THOROUGH_SCALE = 8
 LEVEL = "exploration"
 RULE = ("class-balanced: class layouts with every class present, samples_per_class None or 1..3*max, shuffle, W 1-4 -> over all "
         "ranks together exactly samples_per_class indices per class (minus the effective_length%W trailing entries), per-class "
